@@ -165,8 +165,17 @@ func pieceOracles(c *hx.Ctx, api string, kase interface{}, cfg sizeCfg, source s
 // runSplit: API 1. Returns false when the run must stop (a call did not return).
 func runSplit(c *hx.Ctx, text string, cfg sizeCfg) bool {
 	kase := splitCase{Kind: "split", Text: hx.HexS(text), Cfg: cfg}
-	var pieces []string
-	p, to := withDeadline(func() { pieces = rag.NewSizeCalculatorWithConfig(toRag(cfg)).SplitToSize(text, nil) })
+	var pieces, again []string
+	p, to := withDeadline(func() {
+		sc := rag.NewSizeCalculatorWithConfig(toRag(cfg))
+		pieces = sc.SplitToSize(text, nil)
+		if len(text) < 600 { // the calculator carries no state from call to call
+			sc.SplitToSize(text+" more words. And more", nil)
+			again = sc.SplitToSize(text, nil)
+		} else {
+			again = pieces
+		}
+	})
 	if !c.Check("C13/terminates", !to, kase, func() string {
 		return fmt.Sprintf("SplitToSize did not return within %v on %s", deadline, short(text))
 	}) {
@@ -178,6 +187,9 @@ func runSplit(c *hx.Ctx, text string, cfg sizeCfg) bool {
 		return true
 	}
 	c.Op(op, hexPieces(pieces))
+	c.Check("C13/split-repeatable", strings.Join(pieces, "\x00") == strings.Join(again, "\x00"), kase, func() string {
+		return "a second SplitToSize call on the same calculator returned different pieces"
+	})
 	pieceOracles(c, "SplitToSize", kase, cfg, text, pieces)
 	for i, pc := range pieces {
 		if !c.Check("C13/empty-piece", pc != "", kase, func() string {
@@ -290,7 +302,7 @@ func b01(b bool) int {
 	return 0
 }
 
-// classTable: unicode.IsUpper/IsLetter/IsDigit/IsSpace/ToLower of every
+// classTable: unicode.IsUpper/IsLetter/IsDigit/IsSpace/IsLower/ToLower of every
 // non-ASCII character of the texts (stdlib tables are a parameter of the model).
 func classTable(texts []string) string {
 	seen := map[rune]bool{}
@@ -313,6 +325,9 @@ func classTable(texts []string) string {
 			}
 			if unicode.IsSpace(r) {
 				f |= 8
+			}
+			if unicode.IsLower(r) {
+				f |= 16
 			}
 			out = append(out, fmt.Sprintf("%d.%d.%d", r, f, unicode.ToLower(r)))
 		}
@@ -442,8 +457,8 @@ func runCwo(c *hx.Ctx, paras []string, overlapSize int, sentences bool, maxChunk
 	cc.OverlapSize = overlapSize
 	cc.OverlapSentences = sentences
 	cc.IncludeSectionContext = ctx
-	var own, titles []string
-	var res []ovlOut
+	var own, titles, levels []string
+	var res, res2 []ovlOut
 	p, to := withDeadline(func() {
 		base, err := rag.NewChunkerWithConfig(cc).Chunk(layoutDoc(paras))
 		if err != nil {
@@ -452,13 +467,24 @@ func runCwo(c *hx.Ctx, paras []string, overlapSize int, sentences bool, maxChunk
 		for _, ch := range base.Chunks {
 			own = append(own, ch.Text)
 			titles = append(titles, ch.Metadata.SectionTitle)
+			levels = append(levels, ch.Metadata.Level.String())
 		}
-		out, err := rag.NewChunkerWithConfig(cc).ChunkWithOverlapEnabled(layoutDoc(paras))
+		chunker, doc := rag.NewChunkerWithConfig(cc), layoutDoc(paras)
+		out, err := chunker.ChunkWithOverlapEnabled(doc)
 		if err != nil {
 			panic(err)
 		}
 		for _, o := range out.Chunks {
 			res = append(res, ovlOut{o.OverlapPrefix, o.HasOverlapPrefix, o.Text})
+		}
+		// same chunker, same document, second call: the overlap written into the
+		// chunks of the first call must not leak into the second
+		out2, err := chunker.ChunkWithOverlapEnabled(doc)
+		if err != nil {
+			panic(err)
+		}
+		for _, o := range out2.Chunks {
+			res2 = append(res2, ovlOut{o.OverlapPrefix, o.HasOverlapPrefix, o.Text})
 		}
 	})
 	if !c.Check("C13/terminates", !to, kase, func() string { return "ChunkWithOverlapEnabled did not return" }) {
@@ -467,8 +493,20 @@ func runCwo(c *hx.Ctx, paras []string, overlapSize int, sentences bool, maxChunk
 	if !c.Check("C13/panic", p == "", kase, func() string { return "ChunkWithOverlapEnabled panicked: " + p }) {
 		return true
 	}
+	c.Check("C13/cwo-repeatable", dumpOvl(res) == dumpOvl(res2), kase, func() string {
+		return "a second ChunkWithOverlapEnabled call on the same chunker and document returned different chunks"
+	})
 	if len(own) > 0 {
 		c.Op(fmt.Sprintf("c13.cwo %d:%d:%d %s %s %s", overlapSize, b01(sentences), b01(ctx), classTable(own), hx.HexList(titles), hx.HexList(own)), dumpOvl(res))
+	}
+	// deepening round: the base chunks and the whole call from the paragraphs (model of
+	// Chunker.Chunk's paragraph and sentence packing, Model/Sentences.lean)
+	if len(paras) > 0 {
+		c.Op(fmt.Sprintf("c13.chunk %d:%d %s %s", cc.MaxChunkSize, cc.MinChunkSize, classTable(paras), hx.HexList(paras)), hexPieces(own))
+		c.Op(fmt.Sprintf("c13.cwe %d:%d:%d:%d:%d %s %s", cc.MaxChunkSize, cc.MinChunkSize, overlapSize, b01(sentences), b01(ctx), classTable(paras), hx.HexList(paras)), dumpOvl(res))
+		for _, t := range titles {
+			c.Check("C13/cwo-title-empty", t == "", kase, func() string { return "a paragraph document produced a section title: " + short(t) })
+		}
 	}
 	// conservation of the base chunks (sentence packing of oversized paragraphs)
 	want := nonSpace(strings.Join(paras, "\n\n"))
@@ -490,6 +528,30 @@ func runCwo(c *hx.Ctx, paras []string, overlapSize int, sentences bool, maxChunk
 			})
 		}
 	}
+	// MaxChunkSize: honoured whenever no paragraph is blank and every sentence of an
+	// oversized paragraph fits (the documented last resort is "split at sentence
+	// boundaries"; a sentence is never cut)
+	fits := valid
+	for _, p := range paras {
+		if strings.TrimSpace(p) == "" {
+			fits = false
+		}
+		if len(p) > maxChunk {
+			for _, s := range rag.VerifSplitIntoSentences(p) {
+				if len(s) > maxChunk {
+					fits = false
+				}
+			}
+		}
+	}
+	if fits {
+		for i, t := range own {
+			c.Check("C13/chunk-max-size", len(t) <= maxChunk, kase, func() string {
+				return fmt.Sprintf("Chunker.Chunk: chunk %d has %d bytes > MaxChunkSize %d although every sentence fits and no paragraph is blank", i, len(t), maxChunk)
+			})
+		}
+		c.Count("chunk-max-size-checked")
+	}
 	strategy := 0
 	size := overlapSize
 	if overlapSize > 0 {
@@ -500,6 +562,9 @@ func runCwo(c *hx.Ctx, paras []string, overlapSize int, sentences bool, maxChunk
 	}
 	overlapOracles(c, "ChunkWithOverlapEnabled", kase, strategy, size, overlapSize*3, ctx, own, titles, res)
 	c.Count(fmt.Sprintf("cwo-chunks=%s", bucket(len(own))))
+	for _, l := range levels {
+		c.Count("cwo-chunk-level=" + l)
+	}
 	return true
 }
 
@@ -598,7 +663,7 @@ func genOvlCfg(r *hx.Rng) ovlCfg {
 func init() { hx.Register("C13", Run, Replay) }
 
 func Run(c *hx.Ctx) {
-	c.Rep.Rule = "split: texts of 11 kinds (ASCII prose, spaced prose with a space every 50 bytes, CJK without spaces, emoji/ZWJ, combining sequences, long tokens, whitespace only, mixed, Latin-1 mixed, invalid UTF-8, whitespace-edged) x 5 units x limits 1..4000 x dyadic tokens-per-char, length 0..4x the limit; bound: characters/tokens, limit >= 200, generated with a space every 50 bytes and sentence ends placed at the limit; sweep: for hard maxima in characters and tokens (>= 1 token per byte, thorough also < 1), prose with a space every 50 bytes (4 backgrounds: short words, 30-45 byte words, competing punctuation, multi-byte words) in which each kind of break opportunity (sentence end + space, sentence end + closing quote/bracket + space, sentence end + line/paragraph break, clause punctuation, bare newline, paragraph break, plain space, punctuation without whitespace) starts at EVERY byte offset limit-60..limit+3 of the text (first piece) and at every absolute offset that can be limit-60..limit+3 of the remainder after one (thorough: two) pieces, one in eight also through ChunkDocumentWithConfig; doc: 1-3 paragraphs through ChunkDocumentWithConfig; ovl: 1-5 chunk texts x 4 strategies x sizes through ApplyOverlapToChunks; cwo: paragraph documents through ChunkWithOverlapEnabled (character and sentence overlap); non-trivial = more than one piece / at least one overlap applied"
+	c.Rep.Rule = "split: texts of 11 kinds (ASCII prose, spaced prose with a space every 50 bytes, CJK without spaces, emoji/ZWJ, combining sequences, long tokens, whitespace only, mixed, Latin-1 mixed, invalid UTF-8, whitespace-edged) x 5 units x limits 1..4000 x dyadic tokens-per-char, length 0..4x the limit; bound: characters/tokens, limit >= 200, generated with a space every 50 bytes and sentence ends placed at the limit; sweep: for hard maxima in characters and tokens (>= 1 token per byte, thorough also < 1), prose with a space every 50 bytes (4 backgrounds: short words, 30-45 byte words, competing punctuation, multi-byte words) in which each kind of break opportunity (sentence end + space, sentence end + closing quote/bracket + space, sentence end + line/paragraph break, clause punctuation, bare newline, paragraph break, plain space, punctuation without whitespace) starts at EVERY byte offset limit-60..limit+3 of the text (first piece) and at every absolute offset that can be limit-60..limit+3 of the remainder after one (thorough: two) pieces, one in eight also through ChunkDocumentWithConfig; doc: 1-3 paragraphs through ChunkDocumentWithConfig; ovl: 1-5 chunk texts x 4 strategies x sizes through ApplyOverlapToChunks; cwo: paragraph documents through ChunkWithOverlapEnabled (character and sentence overlap); non-trivial = more than one piece / at least one overlap applied; deepening round: splitb = SplitToSize with 0-30 caller-supplied boundaries (positions around the byte position of the limit and its multiples, at the edges of the +-25% window, negative, beyond the text; scores of the boundary types and negative ones); fsp = FindSplitPointAt/FindSplitPoint at the maximum or another limit of any unit, with and without boundaries; size = Calculate on every text kind; preset = every preset constructor; docp = ChunkDocumentWithConfig on 1-4 pages (empty pages included, one in six with the default configuration and rag.ChunkDocument); nonspace = the specification function of the conservation theorems on every text kind (invalid UTF-8 included); sent = splitIntoSentences on sentence material (abbreviations, initials, capitals and lower case around the punctuation, characters whose last byte is 0x85/0xA0 before a capital, non-ASCII case) and on every text kind; chunk/cwe = Chunker.Chunk and ChunkWithOverlapEnabled from the paragraphs (blank paragraphs, orphans below MinChunkSize, oversized paragraphs of sentence material), each call repeated on the same chunker"
 	// hand-picked edge cases first
 	for _, e := range edgeCases() {
 		if !runSplit(c, e.text, e.cfg) {
@@ -693,6 +758,14 @@ func Run(c *hx.Ctx) {
 		}
 		c.Case(fmt.Sprintf("w%d%v", overlapSize, paras), overlapSize > 0)
 	}
+	// deepening round: entry points, boundaries, presets (api.go)
+	if !runApi(c) {
+		return
+	}
+	// deepening round: sentence splitting and packing, Chunk / ChunkWithOverlapEnabled end to end (sentences.go)
+	if !runSentences(c) {
+		return
+	}
 }
 
 type edge struct {
@@ -762,6 +835,19 @@ func Replay(c *hx.Ctx, k map[string]interface{}) {
 		runSplit(c, unhex(fmt.Sprint(k["text"])), getCfg())
 	case "doc":
 		runDoc(c, list("paras"), getCfg())
+	case "splitb", "fsp", "size":
+		replayApi(c, k, getCfg())
+	case "sent":
+		runSent(c, unhex(fmt.Sprint(k["text"])))
+	case "docp":
+		var pages [][]string
+		if xs, ok := k["pages"].([]interface{}); ok {
+			for _, x := range xs {
+				ys, _ := x.([]interface{})
+				pages = append(pages, unhexAll(ys))
+			}
+		}
+		runDocPages(c, pages, getCfg())
 	case "ovl", "cwo":
 		m, _ := k["ocfg"].(map[string]interface{})
 		f := func(n string) int { v, _ := m[n].(float64); return int(v) }
